@@ -44,6 +44,7 @@ RULE = (
 ASSUMPTIONS = [
     "counterexample values are compared exactly: every failing guard pins all arguments of the test by equalities, so the model is unique for the variables compared (only p_* argument symbols are compared by value)",
     "--early-exit is not generated for invariant tests (documented in get_frontier: a partially computed frontier may be reused)",
+    "the branching solver runs without its (default 1 ms) time limit, so that path counts do not depend on machine load",
     "warnings are not part of the compared result (halmos de-duplicates some of them per process by design)",
 ]
 WATCHDOG_S = {"quick": 900, "thorough": 7200}
@@ -204,7 +205,9 @@ class UidGen:
 
 
 def run_list(cj, sigs, uid=None, others=None, **over):
-    a = e2e.mk_args(solver_timeout_assertion=30.0, **over)
+    # the branching solver gets no time limit: with the default 1 ms budget the set of explored
+    # (infeasible) paths depends on machine load, which is not what this property is about
+    a = e2e.mk_args(solver_timeout_assertion=30.0, solver_timeout_branching=0, **over)
     with UidGen(uid):
         r = e2e.run(cj, args=a, funsigs=list(sigs), others=others, capture=False)
     out = []
